@@ -617,6 +617,272 @@ pub fn gen_model(rng: &mut Rng, o: &GenOpts) -> GModel {
     m
 }
 
+// ---------------------------------------------------------------------------------------------
+// "wide table" family: every variable-length table of the runtime block at and beyond the width
+// of a narrower count (u8 for the u16 counts, u16 for the u32 sizes), always followed by a shape
+// that affects the first mesh — the shape tables are stored after most of the runtime block, so a
+// table consumed with the wrong length moves them
+// ---------------------------------------------------------------------------------------------
+pub const WIDE_KINDS: usize = 14;
+
+/// counts around the 8-bit boundary of a 16-bit count field
+fn wide_count(rng: &mut Rng, fixed: Option<usize>) -> usize {
+    if let Some(n) = fixed {
+        return n;
+    }
+    match rng.below(8) {
+        0 => 255,
+        1 | 2 => 256,
+        3 => 257,
+        4 => 300,
+        5 => *rng.pick(&[511usize, 512, 513, 768]),
+        _ => rng.range(258, 700) as usize,
+    }
+}
+
+fn short_name(rng: &mut Rng, i: usize) -> Vec<u8> {
+    // non-empty, distinct enough, 1..4 bytes
+    let mut v = vec![b'a' + (i % 26) as u8];
+    for _ in 0..rng.below(4) {
+        v.push(rng.range(b'0' as u64, b'9' as u64) as u8);
+    }
+    v
+}
+
+fn tiny_mesh(rng: &mut Rng, start_index: usize, canonical: bool) -> GMesh {
+    let vcount = rng.below(3) as usize;
+    let nidx = rng.below(4) as usize;
+    let decl = vec![GElem { stream: 0, offset: 0, ty: 2, usage: 0, uidx: 0 }];
+    let data = if canonical { canonical_streams(rng, &decl, &[12], vcount)[0].1.clone() } else { rng.bytes(12 * vcount) };
+    if canonical {
+        // C07: a mesh starts at its first sub-mesh's offset
+        return GMesh {
+            vcount: vcount as u16,
+            material: rng.below(4) as u16,
+            bonetable: rng.below(3) as u16,
+            index_pad: (8 - (start_index + nidx) % 8) % 8,
+            decl,
+            streams: vec![(12, data)],
+            indices: (0..nidx).map(|_| if vcount == 0 { 0 } else { rng.below(vcount as u64) as u16 }).collect(),
+            subs: vec![GSub { off: start_index as u32, count: nidx as u32, mask: 0, bstart: 0, bcount: 0 }],
+        };
+    }
+    GMesh {
+        vcount: vcount as u16,
+        material: rng.below(4) as u16,
+        bonetable: rng.below(3) as u16,
+        index_pad: if rng.chance(1, 2) { (8 - (start_index + nidx) % 8) % 8 } else { 0 },
+        decl: vec![GElem { stream: 0, offset: 0, ty: 2, usage: 0, uidx: 0 }],
+        streams: vec![(12, data)],
+        indices: (0..nidx).map(|_| if vcount == 0 { 0 } else { rng.below(vcount as u64) as u16 }).collect(),
+        subs: if rng.chance(1, 2) { vec![GSub { off: start_index as u32, count: nidx as u32, mask: 0, bstart: 0, bcount: 0 }] } else { vec![] },
+    }
+}
+
+/// appends a shape (LOD 0, first mesh, start index 0) whose values refer inside the mesh;
+/// `nshm` shape meshes (the first carries `nval` values, the others 0..2)
+fn push_good_shape(rng: &mut Rng, m: &mut GModel, nshm: usize, nval: usize) {
+    let (good, vc): (Vec<usize>, u16) = {
+        let mesh = &m.lods[0].meshes[0];
+        ((0..mesh.indices.len().min(65536)).filter(|&i| mesh.indices[i] < mesh.vcount).collect(), mesh.vcount)
+    };
+    let mut sh = GShape { name: short_name(rng, m.shapes.len() + 18), start: [0; 3], count: [0; 3] };
+    sh.start[0] = m.shm.len() as u16;
+    sh.count[0] = nshm as u16;
+    for k in 0..nshm {
+        let nv = if k == 0 { nval } else { rng.below(3) as usize };
+        let voff = m.shv.len() as u32;
+        for _ in 0..nv {
+            m.shv.push((*rng.pick(&good) as u16, rng.below(vc as u64) as u16));
+        }
+        m.shm.push((0, nv as u32, voff));
+    }
+    m.shapes.push(sh);
+}
+
+/// `fixed`: use exactly this count for the widened table (quick tier sweeps the boundary values)
+pub fn gen_wide(rng: &mut Rng, kind: usize, fixed: Option<usize>) -> GModel {
+    gen_wide_opts(rng, kind, fixed, false)
+}
+
+/// kinds that exist for C07's canonical version-5 models (no version-6 table, no terrain shadow)
+pub const WIDE_KINDS_CANONICAL: &[usize] = &[1, 2, 3, 4, 5, 6, 7, 8, 9, 10, 11, 12, 13];
+
+/// `canonical`: a model inside C07's quantifier (version 5, writable pairs, canonical streams,
+/// NaN-free float tables, no terrain-shadow tables, consistent starts)
+pub fn gen_wide_opts(rng: &mut Rng, kind: usize, fixed: Option<usize>, canonical: bool) -> GModel {
+    // every supported pair except (BlendWeights, Byte4), the class of the recorded finding
+    const WIDE_COMBOS: &[(u8, u8, u8)] = &[
+        (0, 3, 16), (0, 14, 8), (0, 2, 12), (1, 8, 4), (1, 17, 8), (2, 5, 4), (2, 17, 8), (3, 14, 8), (3, 2, 12),
+        (4, 8, 4), (4, 14, 8), (4, 3, 16), (4, 13, 4), (6, 8, 4), (5, 8, 0), (7, 8, 4),
+    ];
+    let o = GenOpts { max_meshes: 2, max_vertices: 40, combos: if canonical { WCOMBOS } else { WIDE_COMBOS }, v5_only: canonical, canonical };
+    let mut m = loop {
+        let m = gen_model(rng, &o);
+        let first = &m.lods[0].meshes[0];
+        let usable = first.vcount > 0 && first.indices.len() < 4000 && first.indices.iter().any(|&i| i < first.vcount);
+        if usable && (m.ver == 0x1000005 || m.ver == 0x1000006) {
+            break m;
+        }
+    };
+    // a list holding one empty name prints like the empty list (`-`): keep the name lists unambiguous
+    for l in [&mut m.attrs, &mut m.bones, &mut m.mats] {
+        if l.len() == 1 && l[0].is_empty() {
+            l[0] = vec![b'x'];
+        }
+    }
+    // only shapes that refer inside the first mesh (the random ones of `gen_model` may point anywhere)
+    m.shapes.clear();
+    m.shm.clear();
+    m.shv.clear();
+    let set_version = |m: &mut GModel, rng: &mut Rng, v6: bool| {
+        m.ver = if v6 { 0x1000006 } else { 0x1000005 };
+        let nbt = m.bt.len().max(m.bt2.len());
+        if v6 {
+            m.bt.clear();
+            if m.bt2.len() != nbt {
+                m.bt2 = (0..nbt).map(|_| (1u16, vec![rng.below(400) as u16], 0u16)).collect();
+            }
+        } else {
+            m.bt2.clear();
+            if m.bt.len() != nbt {
+                m.bt = (0..nbt).map(|_| ((0..64).map(|_| rng.below(400) as u16).collect(), rng.below(65) as u8)).collect();
+            }
+        }
+    };
+    let v2_table = |rng: &mut Rng, c: usize| -> (u16, Vec<u16>, u16) {
+        let pad = if c % 2 == 0 { rng.below(65536) as u16 } else { 0 };
+        (c as u16, (0..c).map(|_| rng.below(400) as u16).collect(), pad)
+    };
+    match kind {
+        0 => {
+            // version 6 bone table with >= 255 entries (u16 count; version 5 tables are fixed 64)
+            set_version(&mut m, rng, true);
+            let nbt = rng.range(1, 3) as usize;
+            let wide_at = rng.below(nbt as u64) as usize;
+            m.bt2 = (0..nbt)
+                .map(|i| {
+                    let c = if i == wide_at || rng.chance(1, 4) { wide_count(rng, fixed) } else { rng.below(9) as usize };
+                    v2_table(rng, c)
+                })
+                .collect();
+        }
+        1 => {
+            // >= 255 bone tables, either version
+            let v6 = !canonical && rng.chance(1, 2);
+            set_version(&mut m, rng, v6);
+            let n = wide_count(rng, fixed);
+            if v6 {
+                m.bt2 = (0..n).map(|_| { let c = rng.below(4) as usize; v2_table(rng, c) }).collect();
+            } else {
+                m.bt = (0..n).map(|_| ((0..64).map(|_| rng.below(400) as u16).collect(), rng.below(65) as u8)).collect();
+            }
+        }
+        2 => m.attrs = (0..wide_count(rng, fixed)).map(|i| short_name(rng, i)).collect(),
+        3 => {
+            m.bones = (0..wide_count(rng, fixed)).map(|i| short_name(rng, i)).collect();
+            m.bbb = (0..m.bones.len()).map(|_| fill_stream(rng, 32, true)).collect();
+        }
+        4 => m.mats = (0..wide_count(rng, fixed)).map(|i| short_name(rng, i)).collect(),
+        5 => {
+            // many shapes, each with 0..1 shape meshes
+            let n = wide_count(rng, fixed);
+            for _ in 0..n {
+                let k = rng.below(2) as usize;
+                let nv = rng.below(3) as usize;
+                push_good_shape(rng, &mut m, k, nv);
+            }
+        }
+        6 => { let n = wide_count(rng, fixed); push_good_shape(rng, &mut m, n, 1) }
+        7 => { let n = wide_count(rng, fixed); push_good_shape(rng, &mut m, 1, n) }
+        8 => {
+            // element ids / terrain shadow tables (the terrain shadow mesh count is a u8: 255 is its maximum)
+            let which = if canonical { 0 } else { rng.below(3) };
+            if which == 0 || rng.chance(1, 4) {
+                m.eids = (0..wide_count(rng, fixed)).map(|_| fill_stream(rng, 32, true)).collect();
+            }
+            if canonical {
+                // no terrain-shadow tables in C07's quantifier
+            } else if which == 1 || rng.chance(1, 4) {
+                m.tss = (0..wide_count(rng, fixed)).map(|_| rng.bytes(12)).collect();
+            }
+            if !canonical && (which == 2 || rng.chance(1, 4)) {
+                m.tsm = (0..*rng.pick(&[127usize, 128, 254, 255])).map(|_| rng.bytes(20)).collect();
+            }
+        }
+        9 => {
+            // sub-mesh bone map: byte size is a u32 (version 5) / u16 (version 6)
+            let v6 = !canonical && rng.chance(1, 2);
+            set_version(&mut m, rng, v6);
+            let n = match fixed {
+                Some(n) => n,
+                None if v6 => *rng.pick(&[127usize, 128, 129, 300, 32767]),
+                None => *rng.pick(&[127usize, 128, 129, 32767, 32768, 32769, 40000]),
+            };
+            m.map = (0..n).map(|_| rng.below(400) as u16).collect();
+        }
+        10 => {
+            // >= 255 sub-meshes on the first mesh (contiguous, most of them empty)
+            let n = wide_count(rng, fixed);
+            let ni = m.lods[0].meshes[0].indices.len();
+            let mut cuts: Vec<usize> = (0..n - 1).map(|_| rng.below((ni + 1) as u64) as usize).collect();
+            cuts.sort();
+            cuts.push(ni);
+            let mut prev = 0usize;
+            m.lods[0].meshes[0].subs = cuts
+                .iter()
+                .map(|&end| {
+                    let s = GSub { off: prev as u32, count: (end - prev) as u32, mask: rng.u32_edge(), bstart: rng.below(300) as u16, bcount: rng.below(64) as u16 };
+                    prev = end;
+                    s
+                })
+                .collect();
+        }
+        11 => {
+            // >= 255 meshes (mesh_count, vertex_declaration_count): tiny meshes appended to one LOD
+            let n = wide_count(rng, fixed);
+            let l = rng.below(m.lodn as u64) as usize;
+            let mut start: usize = m.lods[l].meshes.iter().map(|x| x.indices.len() + x.index_pad).sum();
+            while m.lods.iter().map(|x| x.meshes.len()).sum::<usize>() < n {
+                let mesh = tiny_mesh(rng, start, canonical);
+                start += mesh.indices.len() + mesh.index_pad;
+                m.lods[l].meshes.push(mesh);
+            }
+        }
+        12 => {} // string block: filled below, once the shape names are known
+        _ => {
+            // padding_amount is a u8
+            let n = match fixed { Some(n) => n, None => *rng.pick(&[127usize, 128, 254, 255]) };
+            m.pad = rng.bytes(n);
+        }
+    }
+    // the shape that makes a mis-sized table visible
+    let nshapes = rng.range(1, 3) as usize;
+    for _ in 0..nshapes {
+        let nshm = rng.range(1, 2) as usize;
+        let nv = rng.range(1, 4) as usize;
+        push_good_shape(rng, &mut m, nshm, nv);
+    }
+    if kind == 12 {
+        // string block at and beyond 64 KiB (string_size is a u32, name offsets are u32)
+        let total = match fixed { Some(n) => n, None => *rng.pick(&[65535usize, 65536, 65537, 70000]) };
+        let fixed_part: usize = m.bones.iter().chain(&m.mats).chain(m.shapes.iter().map(|s| &s.name)).map(|x| x.len() + 1).sum();
+        let mut left = total.saturating_sub(fixed_part);
+        m.attrs.clear();
+        let mut i = 0;
+        while left > 0 {
+            let mut n = left.min(rng.range(150, 250) as usize);
+            if left - n == 1 {
+                n += 1; // a name needs at least one byte besides its terminator
+            }
+            m.attrs.push((0..n - 1).map(|k| b'a' + ((i + k) % 26) as u8).collect());
+            left -= n;
+            i += 1;
+        }
+    }
+    m
+}
+
 /// a model whose only mesh carries `data` (vcount × stride bytes) in stream 0 under `decl`
 pub fn single_stream_model(decl: Vec<GElem>, stride: u8, vcount: u16, data: Vec<u8>) -> GModel {
     let mut m = GModel::default();
@@ -699,6 +965,19 @@ pub fn generate(thorough: bool, seed: u64, out: &mut dyn Write) {
         };
         let m = gen_model(&mut rng, &o);
         writeln!(out, "parse {}", m.tokens()).unwrap();
+    }
+    // wide tables (see `gen_wide`): the version-6 bone table at every boundary count on every run,
+    // every other table once per run (thorough: 60 times)
+    for n in [255usize, 256, 257, 300] {
+        let m = gen_wide(&mut rng, 0, Some(n));
+        writeln!(out, "parse {}", m.tokens()).unwrap();
+    }
+    for round in 0..if thorough { 60 } else { 1 } {
+        for kind in 0..WIDE_KINDS {
+            let fixed = if round == 0 && !thorough && kind != 9 && kind < 12 { Some(*rng.pick(&[256usize, 257, 300])) } else { None };
+            let m = gen_wide(&mut rng, kind, fixed);
+            writeln!(out, "parse {}", m.tokens()).unwrap();
+        }
     }
 }
 
